@@ -134,6 +134,28 @@ RPairs == {RPair(b, n, sym, dst, to, mid) :
              b \in {2, 3}, n \in {2, 3}, sym \in BOOLEAN, dst \in {"same", "swapped"}, to \in 0..1,
              mid \in {"flat", "row"}}
 
+(* Reshape(mid) -> unary chain -> Reshape(back) [-> Reshape(mid) again] -> Relu *)
+RChainOps == {"Relu", "Tanh"}
+RChains == {<<a>> : a \in RChainOps} \cup {<<a, b>> : a \in RChainOps, b \in RChainOps}
+           \cup (IF Tier = "quick" THEN {} ELSE {<<a, b, c>> : a \in RChainOps, b \in RChainOps, c \in RChainOps})
+RChain(sh, mid, ch, follow, togOut) ==
+    LET k == Len(ch)
+        back == k + 2
+        n == IF follow THEN k + 4 ELSE k + 3
+        TokS(q) == [i \in 1..Len(q) |-> Tok(q[i])]
+    IN [kind |-> "rchain", par |-> [k |-> k, follow |-> follow, to |-> togOut],
+        nodes |-> [i \in 1..n |->
+                     IF i = 1 THEN RNode(<<"in", 0>>, mid, TokS(mid), TokS(sh), TRUE)
+                     ELSE IF i <= k + 1 THEN [op |-> ch[i - 1], ins |-> <<NR(i - 1)>>]
+                     ELSE IF i = back THEN RNode(NR(k + 1), sh, TokS(sh), TokS(mid), TRUE)
+                     ELSE IF follow /\ i = back + 1 THEN RNode(NR(back), mid, TokS(mid), TokS(sh), TRUE)
+                     ELSE [op |-> "Relu", ins |-> <<NR(i - 1)>>]],
+        ins |-> In1(sh), consts |-> NoConsts,
+        outs |-> <<NR(n)>> \o (IF togOut = 1 THEN <<NR(k + 1)>> ELSE <<>>)]
+RChainSet == {RChain(sm[1], sm[2], ch, fo, to) :
+                sm \in {<<<<2, 3, 4>>, <<6, 4>>>>, <<<<2, 3, 4>>, <<2, 12>>>>, <<<<2, 3>>, <<6>>>>},
+                ch \in RChains, fo \in BOOLEAN, to \in 0..1}
+
 IdReshape(b, n, sym, same) ==
     LET srcmeta == IF sym THEN <<"B", Tok(n)>> ELSE <<Tok(b), Tok(n)>>
         tgt == IF same THEN <<b, n>> ELSE <<n, b>>
@@ -172,5 +194,5 @@ MulSig(order, togOut, other) ==
      outs |-> <<NR(3)>> \o (IF togOut THEN <<NR(1)>> ELSE <<>>)]
 MulSigs == {MulSig(o, to, ot) : o \in BOOLEAN, to \in BOOLEAN, ot \in BOOLEAN}
 
-Patterns == TChains \cup TReduces \cup AddForests \cup RPairs \cup IdReshapes \cup CastPairs \cup MulSigs
+Patterns == TChains \cup TReduces \cup AddForests \cup RPairs \cup RChainSet \cup IdReshapes \cup CastPairs \cup MulSigs
 =============================================================================
